@@ -96,6 +96,8 @@ type BehavCheck struct {
 	PostRun     func(ev *Evidence) (violations []string, known []string, err error)
 	// Families: further generators whose behaviours are kept only if Select holds (at most Max)
 	Families []Family
+	// ExhD > 0: additionally EVERY history of ExhD calls from the empty store over ExhK keys (one configuration each)
+	ExhD, ExhK int
 }
 
 // Family is a focused generator: TLC simulates Sim, the harness keeps the behaviours that contain
@@ -243,6 +245,15 @@ func (c *BehavCheck) Run() int {
 		}
 		famNotes[f.Name] = fmt.Sprintf("%d of %d generated behaviours contain the pattern, %d used", countIf(fb, f.Select), len(fb), kept)
 	}
+	var exh []*model.Behaviour
+	if c.ExhD > 0 {
+		eb, eg, err := GenerateExhaustive(c.ExhK, c.ExhD)
+		if err != nil {
+			return fail(2, "INCONCLUSIVE: "+err.Error())
+		}
+		transitions += eg
+		exh = eb
+	}
 	// 3. replay
 	rng := rand.New(rand.NewSource(c.Seed))
 	type job struct {
@@ -266,6 +277,19 @@ func (c *BehavCheck) Run() int {
 			}
 			jobs = append(jobs, job{b, cfg, ps, rng.Int63()})
 		}
+	}
+	for _, b := range exh {
+		cfg := SampleConfig(rng, c.Sim.K)
+		ps := rng.Int63()
+		cfg.Pal = palette.New(cfg.Pal.Name, c.Sim.K, ps)
+		cfg.Backend = "mem" // thousands of tiny histories: no directories
+		if c.Configure != nil {
+			c.Configure(rng, &cfg)
+		}
+		jobs = append(jobs, job{b, cfg, ps, rng.Int63()})
+	}
+	if len(exh) > 0 {
+		famNotes["exhaustive-short-histories"] = fmt.Sprintf("every history of %d calls from the empty store over %d keys and 2 values (SaveChangeSet excepted): %d behaviours, one sampled configuration each", c.ExhD, c.ExhK, len(exh))
 	}
 	results := make([]result, len(jobs))
 	var wg sync.WaitGroup
@@ -564,6 +588,36 @@ func GenerateBehaviours(sim SimSpec, seed int64) ([]*model.Behaviour, int64, err
 		return nil, 0, fmt.Errorf("TLC produced no behaviour")
 	}
 	return behs, generated, nil
+}
+
+// GenerateExhaustive lets TLC enumerate EVERY history of d calls from the empty store over k keys and
+// two values (SpecExh of Iavl.tla: breadth-first search with the history in the state, so that each
+// history is a state of its own and is printed when complete).
+func GenerateExhaustive(k, d int) ([]*model.Behaviour, int64, error) {
+	cfg := fmt.Sprintf("SPECIFICATION SpecExh\nCONSTANTS\n  K = %d\n  V = 2\n  IVs = {0}\n  D = %d\n  MaxVer = 99\n  MaxOps = 99\n  Record = TRUE\n  Classes <- SimClasses\nINVARIANTS InvContents\nCHECK_DEADLOCK FALSE\n", k, d)
+	r, err := tlcrun.Run(tlcrun.Opts{Module: "MCIavl", CfgText: cfg, Workers: 8, Tag: "TRACE", Timeout: 60 * time.Minute, JavaOpts: "-Xmx6g"})
+	if err != nil {
+		return nil, 0, fmt.Errorf("TLC enumeration failed: %v", err)
+	}
+	if r.Violation != "" {
+		return nil, 0, fmt.Errorf("TLC reports a violated invariant during the enumeration: %s\n%s", r.Violation, lastLines(r.Output, 30))
+	}
+	if !r.Finished {
+		return nil, 0, fmt.Errorf("TLC did not finish the enumeration")
+	}
+	var behs []*model.Behaviour
+	for _, line := range r.Lines {
+		js, ok := model.ExtractJSON(line, "TRACE")
+		if !ok {
+			return nil, 0, fmt.Errorf("unparsable TRACE line from TLC")
+		}
+		b, err := model.ParseBehaviour(js)
+		if err != nil {
+			return nil, 0, err
+		}
+		behs = append(behs, b)
+	}
+	return behs, r.Generated, nil
 }
 
 // RunMc model-checks the bounded instances.
